@@ -721,6 +721,102 @@ def _rename(n, mapping):
             x["name"] = mapping[x["name"]]
 
 
+# ------------------------------------------------------------------------------------------------ N7 result accumulated in a local
+def n7_sink(stmts, locals_):
+    """`t = d; for(..) if(c) t = v; A[k] = t;`  ->  `A[k] = d; for(..) if(c) A[k] = v;`
+    A scalar local that is only assigned (plain `=`, never read) until it is stored once into A[k] carries the value A[k] is going
+    to get: every assignment is turned into the store.  Done only when, between the first assignment and the store, nothing reads or
+    writes A, nothing writes a variable of k, control cannot leave the region (return / goto / break / continue of an enclosing
+    loop) and t is not read after the store."""
+    i = 0
+    while i < len(stmts):
+        s = stmts[i]
+        for sub in _sub_blocks(s):
+            n7_sink(sub, locals_)
+        st = strip(s) if s.get("kind") in ("ParenExpr",) else s
+        if st.get("kind") == "BinaryOperator" and st.get("opcode") == "=":
+            lhs, rhs = st["inner"][0], strip(st["inner"][1])
+            kind, arr = _target_base(lhs)
+            if kind == "arr" and strip(lhs).get("kind") == "ArraySubscriptExpr" and rhs.get("kind") == "DeclRefExpr" and rhs["referencedDecl"]["name"] in locals_:
+                t = rhs["referencedDecl"]["name"]
+                idx_vars = var_refs(strip(lhs)["inner"][1])
+                # region: statements of this block back to the first plain assignment of t
+                j = i - 1
+                first = None
+                while j >= 0:
+                    sj = stmts[j]
+                    sc_, ar_, unk = writes(sj)
+                    if unk or arr in ar_ or arr in arrays_read(sj) or (sc_ & idx_vars) or _leaves(sj):
+                        break
+                    if t in var_refs(sj):
+                        if not _only_assigned(sj, t):
+                            break
+                        first = j
+                    j -= 1
+                read_after = any(t in var_refs(x) and not _only_assigned(x, t) for x in stmts[i + 1:])
+                if first is not None and not read_after and _starts_with_assignment(stmts[first], t):
+                    for k_ in range(first, i):
+                        _retarget(stmts[k_], t, lhs)
+                    del stmts[i]
+                    continue
+        i += 1
+
+
+def _leaves(s):
+    for x in walk(s):
+        if x.get("kind") in ("ReturnStmt", "GotoStmt"):
+            return True
+    # break / continue that are not enclosed by a loop of s itself
+    def rec(n, inloop):
+        k = n.get("kind")
+        if k in ("BreakStmt", "ContinueStmt") and not inloop:
+            return True
+        il = inloop or k in ("ForStmt", "WhileStmt", "DoStmt")
+        if k == "SwitchStmt":
+            il = True
+        return any(rec(c, il) for c in kids(n))
+    return rec(s, False)
+
+
+def _only_assigned(s, t):
+    """every occurrence of t in s is the target of a plain assignment statement `t = e` with e free of t"""
+    ok = True
+
+    def rec(n):
+        nonlocal ok
+        if n.get("kind") == "BinaryOperator" and n.get("opcode") == "=":
+            l = strip(n["inner"][0])
+            if l.get("kind") == "DeclRefExpr" and l["referencedDecl"]["name"] == t:
+                if t in var_refs(n["inner"][1]):
+                    ok = False
+                rec(n["inner"][1])
+                return
+        if n.get("kind") == "DeclRefExpr" and n.get("referencedDecl", {}).get("name") == t:
+            ok = False
+        if n.get("kind") == "VarDecl" and n.get("name") == t:
+            ok = False
+        for c in kids(n):
+            rec(c)
+    rec(s)
+    return ok
+
+
+def _starts_with_assignment(s, t):
+    """s is itself `t = e` (unconditional): the value stored at the end is defined on every path"""
+    x = s
+    return x.get("kind") == "BinaryOperator" and x.get("opcode") == "=" and strip(x["inner"][0]).get("kind") == "DeclRefExpr" and \
+        strip(x["inner"][0])["referencedDecl"]["name"] == t
+
+
+def _retarget(s, t, lhs):
+    for n in walk(s):
+        if n.get("kind") == "BinaryOperator" and n.get("opcode") == "=":
+            l = strip(n["inner"][0])
+            if l.get("kind") == "DeclRefExpr" and l["referencedDecl"]["name"] == t:
+                n["inner"][0] = copy.deepcopy(lhs)
+                n["type"] = lhs.get("type", n.get("type"))
+
+
 class Inliner:
     def __init__(self, fns, entry_points, max_stmts=60):
         self.fns, self.entry, self.max = fns, entry_points, max_stmts
@@ -757,6 +853,7 @@ class Inliner:
         nfn = dict(fn, body=body)
         self._inline_calls(nfn, stack + (q,))
         sc, pt = local_vars(nfn)
+        n7_sink(body["inner"], sc)
         _n4_block(body["inner"], sc, pt)
         _drop_dead(body, sc | pt)
         self.done[q] = nfn
